@@ -9,7 +9,7 @@
 
 enum { OP_FAST_OVER, OP_GENERAL_ATOP, OP_SAME_TWICE, OP_FILL, OP_REGION, OP_TRAP, OP_SHARED_SRC, OP_GRADIENT, OP_SHARED_GRADIENT, OP_SHARED_CLIPPED_SRC, OP_SHARED_ACCESSOR_SRC, OP_TILE_FILL, OP_SHARED_TILE_SRC, OP_SHARED_TILE_MASK, N_BODY_OPS,
        /* free-running pass only (rows of thousands of pixels are too many scheduling points for the explorer) */
-       OP_WIDE_ROW_NARROW = N_BODY_OPS, OP_WIDE_ROW_FLOAT, OP_WIDE_ROW_MALLOC, OP_SHARED_SOLID, N_ALL_OPS };
+       OP_WIDE_ROW_NARROW = N_BODY_OPS, OP_WIDE_ROW_FLOAT, OP_WIDE_ROW_MALLOC, OP_SHARED_SOLID, OP_DITHERED, N_ALL_OPS };
 static const char *body_op_name[N_BODY_OPS] = { "fast-path OVER 8888->8888", "general-path ATOP 8888->0565", "same ADD composite twice (cache hit)", "pixman_fill + fill_rectangles",
                                                 "region32 union/subtract", "rasterize_trapezoid a8", "OVER from the shared source", "linear gradient SRC (general iterators)", "SRC from the shared 4-stop gradient (per-thread origin)",
                                                 "OVER from the shared source that has a two-box client clip with source clipping (per-thread offset)",
@@ -130,6 +130,12 @@ static void body_teardown(tctx_t *t)
 static void body_run(tctx_t *t, int op)
 {
     switch (op) {
+    case OP_DITHERED: {            /* a private destination with ordered dithering: whatever tables the dither code uses are read-only or per call */
+        pixman_image_set_dither(t->dst16, (t->tid & 1) ? PIXMAN_DITHER_ORDERED_BLUE_NOISE_64 : PIXMAN_DITHER_ORDERED_BAYER_8);
+        pixman_image_set_dither_offset(t->dst16, 3 * t->tid, 63);
+        pixman_image_composite32(PIXMAN_OP_OVER, t->wdst10_img, NULL, t->dst16, 0, 0, 0, 0, 0, 0, DW, DH);      /* a 10-bit source: the float pipeline, the one that dithers */
+        pixman_image_set_dither(t->dst16, PIXMAN_DITHER_NONE);
+        break; }
     case OP_SHARED_SOLID:          /* general 8-bit path from one solid-fill image shared by all threads; the threads ask for rows of different widths (3 / 40 / 2100 pixels) */
         if (!t->shared_solid) break;
         if (t->tid % 3 == 0) pixman_image_composite32(PIXMAN_OP_ATOP, t->shared_solid, NULL, t->dst32, 0, 0, 0, 0, 0, 0, DW, DH);
